@@ -1,14 +1,6 @@
 SPECIFICATION Spec
 CONSTANTS Devs = {}
-          Cases <- MCCasesNorm
-          MCN = 3
-          MCStatus = {"ok", "missing"}
-          MCLims <- Lims2
-          MCConcs = {1, 2}
-          MCSkips = {FALSE, TRUE}
-          MCHandlerLists <- HL_Shape
-          MCOers = {"same"}
-          MCProvs = {TRUE}
+          Cases <- MQuick
 INVARIANTS TypeOK VisitedSafe VisitedExact DepthShortest FetchedExact LocalExact HandlerCidRight
            HandlerCallsRight ProvidedExact ResultRight NoHandlerCrash
 PROPERTY Termination
